@@ -5,7 +5,8 @@ namespace rs {
 
 static const char* const kNames[K_COUNT] = { "none", "mark", "pass", "fail_cpp", "fail_c", "throw_std", "throw_foreign", "print", "clock",
     "alloc", "free", "realloc", "expect_leaks", "ignore_leaks", "ptr_set", "plugin_error",
-    "die_signal", "die_exit", "die_abort", "die_stop", "fork_fail", "wait_eintr", "wait_error", "wait_stopped", "wait_exited", "wait_signaled" };
+    "die_signal", "die_exit", "die_abort", "die_stop", "fork_fail", "wait_eintr", "wait_error", "wait_stopped", "wait_exited", "wait_signaled",
+    "plugin_install", "plugin_remove" };
 const char* kindName(int k) { return k >= 0 && k < K_COUNT ? kNames[k] : "none"; }
 int kindFromName(const char* s) { for (int i = 0; i < K_COUNT; i++) if (!strcmp(s, kNames[i])) return i; return K_NONE; }
 
@@ -49,7 +50,7 @@ void buildArgv(const Desc& d, Vec<Str>& av) {
             Str val = Str(G.sarg(0)) + "." + G.sarg(1);
             if (attached) av.push_back(opt + val); else { av.push_back(opt); av.push_back(val); }
         } else {                           // "TEST(group, name)" as copied from verbose output: strict group and strict name
-            av.push_back(Str("TEST(") + G.sarg(0) + ", " + G.sarg(1) + ")");
+            av.push_back(Str(form == 3 ? "IGNORE_TEST(" : "TEST(") + G.sarg(0) + ", " + G.sarg(1) + ")");
         }
     }
     for (size_t i = 0; i < d.argv.size(); i++) av.push_back(d.argv[i]);   // extra raw arguments
@@ -241,7 +242,7 @@ void generate(uint64_t seed, const Str& profile, Desc& d, bool exceptions) {
             int n = (int)world.range(0, 3);
             for (int i = 0; i < n; i++) { Op o; o.kind = K_MARK; o.phase = world.chance(1, 2) ? PH_PRE : PH_POST; o.d = ++opLine; P.ops.push_back(o); }
             if (f.pluginErr && world.chance(1, 3)) {
-                Op o; o.kind = K_PLUGIN_ERROR; o.phase = PH_POST; o.d = ++opLine; o.s2 = textWithSpecials(faults, f, sfmt("tk%d_", opLine).c_str());
+                Op o; o.kind = K_PLUGIN_ERROR; o.phase = faults.chance(1, 3) ? PH_PRE : PH_POST; o.d = ++opLine; o.s2 = textWithSpecials(faults, f, sfmt("tk%d_", opLine).c_str());
                 o.a = (int64_t)faults.range(1, 4);           // fires on every a-th test
                 P.ops.push_back(o);
             }
@@ -252,15 +253,39 @@ void generate(uint64_t seed, const Str& profile, Desc& d, bool exceptions) {
         }
     }
 
+    if (f.plugins && !f.procReal && !f.procSyn && nTests >= 2 && world.chance(1, 4)) {
+        // tests change the plugin chain while the run is under way: late plugins get installed, plugins get removed by name.
+        // Plugins that take part carry only trace marks (no errors), so nothing but the action order depends on them.
+        int firstPluginGroup = (int)d.groups.size(); int nStatic = 0;
+        for (size_t g = 0; g < d.groups.size(); g++) if (d.groups[g].tag == "plugin") { if (firstPluginGroup > (int)g) firstPluginGroup = (int)g; nStatic++; }
+        int nLate = (int)world.range(1, 3);
+        for (int p = 0; p < nLate; p++) {
+            Group P; P.tag = "plugin"; P.args.push_back(1); P.args.push_back(0); P.args.push_back(1); P.sargs.push_back(sfmt("late%d", p));
+            { Op o; o.kind = K_MARK; o.phase = PH_PRE; o.d = ++opLine; P.ops.push_back(o); } { Op o; o.kind = K_MARK; o.phase = PH_POST; o.d = ++opLine; P.ops.push_back(o); }
+            d.groups.push_back(P);
+        }
+        int nChanges = (int)world.range(1, 4);
+        for (int c = 0; c < nChanges; c++) {
+            Group& T = d.groups[world.below((uint64_t)nTests)];
+            Op o; o.phase = (int)world.below(3); o.d = ++opLine;
+            bool install = world.chance(3, 5);
+            o.kind = install ? K_PLUGIN_INSTALL : K_PLUGIN_REMOVE;
+            o.a = install ? nStatic + (int64_t)world.below((uint64_t)nLate) : (int64_t)world.below((uint64_t)(nStatic + nLate));
+            size_t at = 0; while (at < T.ops.size() && T.ops[at].phase < o.phase) at++;      // first statement of that phase
+            T.ops.insert(T.ops.begin() + (long)at, o);
+        }
+        // a static plugin that may be removed mid-run keeps only its marks
+        for (size_t g = 0; g < d.groups.size(); g++) if (d.groups[g].tag == "plugin") { Vec<Op> keep; for (size_t i = 0; i < d.groups[g].ops.size(); i++) if (d.groups[g].ops[i].kind == K_MARK) keep.push_back(d.groups[g].ops[i]); d.groups[g].ops = keep; }
+    }
     if (f.filters && cfg.chance(3, 4)) {
         int nf = (int)cfg.range(1, 5);
         static const char* const alpha[] = { "a", "ab", "abc", "b", "Ab", "bc", "c", "abcd", "x", "xa", "zz", "A", "" };
         for (int i = 0; i < nf; i++) {
             Group F; F.tag = "filter";
-            int form = cfg.chance(1, 5) ? (cfg.chance(1, 3) ? 2 : 1) : 0;
+            int form = cfg.chance(1, 5) ? (cfg.chance(1, 3) ? (cfg.chance(1, 3) ? 3 : 2) : 1) : 0;
             F.args.push_back(form == 0 ? (int64_t)cfg.below(2) : 0);   // isName
-            F.args.push_back(form == 2 ? 1 : (int64_t)cfg.below(2));   // strict
-            F.args.push_back(form == 2 ? 0 : (int64_t)cfg.chance(1, 3)); // invert
+            F.args.push_back(form >= 2 ? 1 : (int64_t)cfg.below(2));   // strict
+            F.args.push_back(form >= 2 ? 0 : (int64_t)cfg.chance(1, 3)); // invert
             F.args.push_back(form); F.args.push_back((int64_t)cfg.below(2));
             F.sargs.push_back(alpha[cfg.below(form == 0 ? 13 : 12)]); F.sargs.push_back(alpha[cfg.below(12)]);
             d.groups.push_back(F);
